@@ -224,7 +224,8 @@ pub fn struct_names(output: &str) -> Vec<String> {
         }
     }
     let mut out = vec![];
-    match syn::parse_file(output) {
+    let parsed = syn::parse_file(output);
+    match &parsed {
         Ok(f) => walk(&f.items, &mut out),
         Err(_) => {
             for l in output.lines() {
@@ -235,6 +236,9 @@ pub fn struct_names(output: &str) -> Vec<String> {
             }
         }
     }
+    drop(parsed);
+    // release proc-macro2's per-thread source map (see outscan::scan)
+    proc_macro2::extra::invalidate_current_thread_spans();
     out
 }
 
